@@ -50,6 +50,13 @@ CLAIMED["C01"] = ("Structural clauses: (b) kind-set dataflow proves every typed 
     "kind-set refinement dataflow over the CFG with boolean condition decomposition (guard dominates access); call-graph SCCs with depth-bound idiom verification; table/layout agreement; save/restore typestate",
     "3 C01")
 
+CLAIMED["C19"] = ("(a) every generated numeric accessor of (scheme bytevector) / (srfi 160 prims) that forms data(B)+off is dominated by "
+    "checks implying 0 <= off and off + width <= length(B) (width taken from the helper's memcpy size / element type; facts from the "
+    "branch conditions, as linear forms); (b) the JSON reader and writer recursion cycles pass through a verified depth-parameter bounder. "
+    "Decides 'total on hostile offsets / nesting' for these codecs; encode/decode inverses and the Scheme-level codecs are not decided.",
+    "relational guard-dominates-access over the CFG (linear forms of branch conditions vs. interprocedural width summaries of accessor helpers); call-graph SCC depth-bound verification",
+    "3 C19")
+
 # properties planned in DESIGN.md but whose checks are not built yet are listed
 # as not applicable *for now* with that reason, so the manifest never over-claims
 PENDING = {}
